@@ -208,11 +208,15 @@ class CouplingSimulation:
                 value = grid.left_point(position)
         return value
 
-    def coupling_states_for_a_slice(self, slice_fine_states):
-        """Apply the coupling for an array of states of the fine process"""
+    def coupling_states_for_a_slice(self, slice_fine_states, start=None):
+        """Apply the coupling for an array of states of the fine process
+
+        :param slice_fine_states: increments of the fine process over one time interval
+        :param start: value of the coarse process at the beginning of the interval (the grid origin by default)
+        """
         if len(slice_fine_states):
             slice_coupling_values = np.empty(shape=len(slice_fine_states), dtype=float)
-            current_value = self.coupling_process.grid.origin
+            current_value = self.coupling_process.grid.origin if start is None else start
             for k, deltaFineState in enumerate(slice_fine_states):
                 current_value += self.coupling_state(deltaFineState)
                 slice_coupling_values[k] = current_value
@@ -246,15 +250,19 @@ class CouplingSimulationFixedTimes(CouplingSimulation):
         fines_states_values = np.zeros(shape=len(fine_states_increments))
         coarse_states_values = np.zeros_like(fines_states_values)
 
+        # both components are running sums over the whole path: an interval starts from the values reached before
+        fine_value = coarse_value = self.coupling_process.grid.origin
         for k, (slice_fine_states, slice_fine_values) in enumerate(
             zip(fine_states_increments, fines_states_all_values)
         ):
             if len(slice_fine_states):
                 slice_coarse_values = self.coupling_states_for_a_slice(
-                    slice_fine_states
+                    slice_fine_states, start=coarse_value
                 )
-                fines_states_values[k] = slice_fine_values[-1]
-                coarse_states_values[k] = slice_coarse_values[-1]
+                fine_value = slice_fine_values[-1]
+                coarse_value = slice_coarse_values[-1]
+            fines_states_values[k] = fine_value
+            coarse_states_values[k] = coarse_value
 
         return fines_states_values, coarse_states_values
 
@@ -309,15 +317,20 @@ class CouplingSimulationWithJumpTimes(CouplingSimulation):
         fine_states_all_values = fine_mc.values
         jump_times = fine_mc.times
 
-        coarse_states_all_values = np.empty_like(fine_states_all_values)
+        coarse_states_all_values = [
+            np.empty(shape=0, dtype=float) for _ in fine_states_all_values
+        ]
 
+        # the coarse component is a running sum over the whole path: an interval starts from the value reached before
+        coarse_value = self.coupling_process.grid.origin
         for k, (slice_fine_states, slice_fine_values) in enumerate(
             zip(fine_states_increments, fine_states_all_values)
         ):
             if len(slice_fine_states):
                 slice_coarse_values = self.coupling_states_for_a_slice(
-                    slice_fine_states
+                    slice_fine_states, start=coarse_value
                 )
+                coarse_value = slice_coarse_values[-1]
                 coarse_states_all_values[k] = slice_coarse_values
 
         fine_values = np.concatenate(fine_states_all_values).ravel().astype(float)
